@@ -1,11 +1,83 @@
-(* C03 - framing is independent of how the byte stream is chunked; no lost wakeups. *)
-From Poster Require Import Model.Framing Proofs.FramingP.
+(* C03 - framing is independent of how the byte stream is chunked; no lost wakeups.
+   Model: Model/Framing.v (RxPacketStream::poll_next over a scripted AsyncRead: a list of
+   segments, each read takes min(capacity, segment) bytes of the head segment; Pending when the
+   list is empty; end-of-stream / error flags).  Reference: Spec/Frames.v, the standard's framing. *)
+From Poster Require Import Model.Framing Spec.Frames Proofs.FramingP Proofs.FramingMainP.
 
-(* no lost wakeup, every available byte consumed: for every state, transport script and fuel, the
-   packet stream returns Pending only when the transport has nothing available and has not ended -
-   i.e. straight after the transport's own poll_read returned Pending, which registered the waker *)
+(* one poll, from any state satisfying the framing invariant, on any transport script: it ends in
+   an item that is exactly the reference frame at the front of (received ++ still to come), or in
+   Pending with every delivered byte consumed, no whole packet withheld and the transport's own
+   Pending just observed (waker registered), or in End because the transport ended or the length
+   field is malformed beyond repair - never a panic, never out of fuel *)
+Theorem C03_poll : forall (fuel : nat) (x : rx) (rd : reader) (W : bytes),
+  Inv x W -> nonempty_segs rd -> need (fstate x) rd <= N.of_nat fuel ->
+  match fpoll fuel x rd with
+  | (FItem p, x', rd') =>
+      exists W', Inv x' W' /\ nonempty_segs rd' /\ flags_same rd rd' /\
+                 frame1 (W ++ avail rd) = Frame p (W' ++ avail rd')
+  | (FPending, x', rd') =>
+      Inv x' (W ++ avail rd) /\ fstate x' = Idle /\ segs rd' = [] /\ ~ ended rd' /\ flags_same rd rd'
+  | (FEnd, x', rd') =>
+      (Inv x' (W ++ avail rd) /\ fstate x' = Idle /\ segs rd' = [] /\ ended rd' /\ flags_same rd rd') \/
+      (dead (W ++ avail rd) /\ flags_same rd rd')
+  | _ => False
+  end.
+Proof. exact poll_spec. Qed.
+Print Assumptions C03_poll.
+
+(* the run loop's fuel is always enough *)
+Theorem C03_fuel : forall st rd, need st rd <= N.of_nat (poll_fuel rd).
+Proof. exact poll_fuel_enough. Qed.
+Print Assumptions C03_fuel.
+
+(* successive polls from the initial state: the packets yielded are exactly the reference frames
+   of the whole byte stream, whatever the chunking; the stream stops only at Pending (transport has
+   nothing more and has not ended; the unframed remainder is kept) or at End, and End is reported
+   only when the transport has ended or the next length field is malformed *)
+Theorem C03_drain : forall (n : nat) (x : rx) (rd : reader) (W : bytes) ps o x' rd',
+  Inv x W -> nonempty_segs rd -> drain n x rd = (ps, Some (o, x', rd')) ->
+  exists rest, Frames (W ++ avail rd) ps rest /\ flags_same rd rd' /\
+    match o with
+    | FPending => Inv x' rest /\ segs rd' = [] /\ ~ ended rd'
+    | FEnd => (Inv x' rest /\ segs rd' = [] /\ ended rd') \/ dead rest
+    | _ => False
+    end.
+Proof. exact drain_frames. Qed.
+Print Assumptions C03_drain.
+
+Theorem C03_drain_terminates : forall (n : nat) (x : rx) (rd : reader) (W : bytes),
+  Inv x W -> nonempty_segs rd -> lenN (W ++ avail rd) < 2 * N.of_nat n -> snd (drain n x rd) <> None.
+Proof. exact drain_terminates. Qed.
+Print Assumptions C03_drain_terminates.
+
+(* the property: two chunkings of the same byte stream yield the same packets in the same order *)
+Theorem C03_chunk_independent : forall rd1 rd2 n1 n2 ps1 ps2 e1 e2,
+  nonempty_segs rd1 -> nonempty_segs rd2 -> avail rd1 = avail rd2 ->
+  drain n1 rx_init rd1 = (ps1, Some e1) -> drain n2 rx_init rd2 = (ps2, Some e2) -> ps1 = ps2.
+Proof. exact chunk_independent. Qed.
+Print Assumptions C03_chunk_independent.
+
+(* ... namely the packets themselves, as when each arrives in a read of its own *)
+Theorem C03_same_as_packet_per_read : forall ps rd n qs e,
+  Forall whole_packet ps -> nonempty_segs rd -> avail rd = concat ps ->
+  drain n rx_init rd = (qs, Some e) -> qs = ps.
+Proof. exact same_as_packet_per_read. Qed.
+Print Assumptions C03_same_as_packet_per_read.
+
+(* no lost wakeup, stated for EVERY state and script (no invariant needed): Pending is returned only
+   when the transport has nothing available and has not ended *)
 Theorem C03_no_lost_wakeup : forall (fuel : nat) (x : rx) (rd : reader) (x' : rx) (rd' : reader),
   fpoll fuel x rd = (FPending, x', rd') ->
   segs rd' = [] /\ r_eof rd' = false /\ r_err rd' = false /\ fstate x' = Idle.
 Proof. exact fpoll_pending_registered. Qed.
 Print Assumptions C03_no_lost_wakeup.
+
+(* non-vacuity: PINGRESP, a 3-byte-header packet and a PUBACK cut at awkward places (a 1-byte
+   first read, a cut inside the length field, a cut one byte into the next packet) *)
+Example C03_nonvacuous :
+  let pk := [[208; 0]; 48 :: 130 :: 1 :: repeat 7 130; [64; 2; 0; 1]] in
+  let s := concat pk in
+  Forall whole_packet pk /\
+  fst (drain 10 rx_init (mkrd [takeN 1 s; takeN 2 (dropN 1 s); takeN 131 (dropN 3 s); dropN 134 s] false false)) = pk /\
+  fst (drain 10 rx_init (mkrd (map (fun b => [b]) s) true false)) = pk.
+Proof. vm_compute. repeat split; repeat constructor. Qed.
